@@ -20,7 +20,9 @@ pub fn sync_strategy() -> BoxedStrategy<Case> {
     let gen = GenParams { nkeys: 4, ts_span: 4, metas: 2, max_ops: 40, w_write: 40, w_delete: 10, w_switch: 8, w_wait: 12, w_reopen: 3, w_lifecycle: 10, w_maint: 8, vlen: VlenGen::Thresholds, ..Default::default() };
     let burst = (2u8..12, prop_oneof![Just(10u32), Just(5000u32), Just(100_000u32)]).prop_map(|(n, vlen)| Op::Burst { n, vlen });
     let fsync = Just(Op::Fsync);
-    let op = prop_oneof![16 => op_strategy(&gen), 2 => burst, 2 => fsync];
+    // the storage dropped without close(): the next instance meets blobs whose last bytes were never synced by anybody
+    let abandon = prop::bool::weighted(0.3).prop_map(|lazy| Op::Abandon { lazy });
+    let op = prop_oneof![16 => op_strategy(&gen), 2 => burst, 2 => fsync, 1 => abandon];
     let limit = prop_oneof![Just(Some(0u64)), Just(Some(1)), Just(Some(100)), Just(Some(4096)), Just(Some(1 << 20)), Just(None)];
     let cfg = (cfg_strategy(&[8, 33], true), limit).prop_map(|(mut c, l)| {
         c.dirty_limit = l;
@@ -36,6 +38,9 @@ struct Judge {
     pos: usize,
     limit: u64,
     exceeded: bool,
+    /// blob -> (written length, un-synced bytes) when a storage instance was dropped without close(): the next instance
+    /// cannot know about those bytes (it counts from zero), so they do not count against ITS limit while they are un-synced
+    inherited: std::collections::BTreeMap<PathBuf, (u64, u64)>,
 }
 
 impl Judge {
@@ -57,6 +62,16 @@ impl Judge {
             }
         }
         None
+    }
+
+    /// un-synced bytes of `blob` that the running instance is accountable for
+    fn unsynced_own(&self, blob: &Path) -> u64 {
+        let (w, s) = self.unsynced(blob);
+        let d = w - s.min(w);
+        match self.inherited.get(blob) {
+            Some((w0, u0)) if s < *w0 => d.saturating_sub(*u0),
+            _ => d,
+        }
     }
 
     fn unsynced(&self, blob: &Path) -> (u64, u64) {
@@ -127,11 +142,24 @@ pub fn run_sync(c: &Case, dir: &Path, findings: &Findings) -> Result<CaseOut, Fa
     let limit = c.cfg.dirty_limit.unwrap_or(DEFAULT_LIMIT);
     let res = rt.block_on(async {
         let mut ex = Exec::new(c.cfg.clone(), dir.to_path_buf(), Checks::default(), 4, 1, findings);
-        let mut j = Judge { trace: Trace::default(), session: session.clone(), pos: 0, limit, exceeded: false };
+        let mut j = Judge { trace: Trace::default(), session: session.clone(), pos: 0, limit, exceeded: false, inherited: Default::default() };
         ex.start().await?;
         let active_path = |ex: &Exec| -> Option<PathBuf> { ex.model.active.map(|a| sut::blob_path(dir, a)) };
         for (i, op) in c.ops.iter().enumerate() {
             let before_active = active_path(&ex);
+            if matches!(op, Op::Abandon { .. }) {
+                // what the instance that is about to be dropped leaves un-synced (it is idle: apply() waits for that first)
+                let _ = crate::sut::wait_quiet(ex.s(), false, crate::interp::max_wait()).await;
+                j.pull();
+                let paths: Vec<PathBuf> = j.trace.files.keys().filter(|p| p.extension().and_then(|e| e.to_str()) == Some("blob")).cloned().collect();
+                for p in paths {
+                    let (w, s) = j.unsynced(&p);
+                    if w > s {
+                        j.inherited.insert(p, (w, w - s));
+                    }
+                }
+                ex.labels.insert("instance_dropped_without_close");
+            }
             ex.apply(i, op).await?;
             j.pull();
             // rule 3: explicit sync / successful close of the active blob leave no un-synced byte of that blob
@@ -167,7 +195,7 @@ pub fn run_sync(c: &Case, dir: &Path, findings: &Findings) -> Result<CaseOut, Fa
                 j.pull();
                 if let Some(p) = active_path(&ex) {
                     let (w, s) = j.unsynced(&p);
-                    if w - s.min(w) > j.limit {
+                    if j.unsynced_own(&p) > j.limit {
                         return ex.fail("sync/unsynced-above-limit-at-idle", format!("{}: {} bytes written, {} synced, limit {}; background machinery idle", p.display(), w, s, j.limit));
                     }
                     ex.labels.insert("idle_point");
@@ -178,7 +206,7 @@ pub fn run_sync(c: &Case, dir: &Path, findings: &Findings) -> Result<CaseOut, Fa
         j.pull();
         if let Some(p) = active_path(&ex) {
             let (w, s) = j.unsynced(&p);
-            if w - s.min(w) > j.limit {
+            if j.unsynced_own(&p) > j.limit {
                 return ex.fail("sync/unsynced-above-limit-at-idle", format!("{}: {} bytes written, {} synced, limit {}; background machinery idle (end of case)", p.display(), w, s, j.limit));
             }
         }
@@ -267,7 +295,7 @@ pub fn run_sync_fault(c: &FaultCase, dir: &Path, _findings: &Findings) -> Result
             Ok(s) => s,
             Err(e) => return fail("init/err", format!("{:#}", e), 0, &FOp::WaitIdle),
         };
-        let mut j = Judge { trace: Trace::default(), session: session.clone(), pos: 0, limit, exceeded: false };
+        let mut j = Judge { trace: Trace::default(), session: session.clone(), pos: 0, limit, exceeded: false, inherited: Default::default() };
         let mut labels: BTreeSet<String> = BTreeSet::new();
         let mut stats = Stats::default();
         // number of fired failpoints seen when the last fully acknowledged write started (None = no such write yet)
